@@ -395,7 +395,7 @@ def handle (op : String) (args : List String) (obs : String) : Option Verdict :=
   match op with
   | "q.run" => some (qRun args obs)
   | "q.seq" => some (qSeq args obs)
-  | "pool.run" => some (poolRun obs)
+  | "pool.run" | "pool.fail" => some (poolRun obs)
   | "pl.run" => some (plRun args obs)
   | "pl.seq" => some (plSeq args obs)
   | "playerlist.locks" =>
@@ -423,7 +423,7 @@ def handle (op : String) (args : List String) (obs : String) : Option Verdict :=
           | none => if !(fields.any fun f => TypeCache.equalFold f tn) && obs != "none" then some "a name that matches no field was stored" else none
         { model := want, spec }
       | _, _ => { model := "bad-arg" })
-  | "cache.run" | "cache.fold" =>
+  | "cache.run" | "cache.fold" | "cache.nil" =>
     let toks := obs.splitOn " "
     some (match toks.head?, kv toks "seq", kv toks "conc" with
       | some "ok", some a, some b =>
